@@ -18,8 +18,9 @@ GO_ALL = [
          eps=["ParseUDPMessage", "ReadTCPRequest", "ReadTCPResponse"]),
     dict(module="core", pkg="internal/frag", pkgname="frag", files={"zz_verif_c03_test.go": H + "frag_test.go"},
          eps=["Defragger.Feed", "FragUDPMessage"]),
-    dict(module="core", pkg="server", pkgname="server", files={"zz_verif_c03_test.go": H + "server_test.go"},
-         eps=["server.udpSessionManager.feed", "server.sendMessageAutoFrag"], kinds=["srv"]),
+    dict(module="core", pkg="server", pkgname="server", files={"zz_verif_c03_test.go": H + "server_test.go",
+                                                               "zz_verif_c03_dge2e_test.go": H + "server_dgram_e2e_test.go"},
+         eps=["server.udpSessionManager.feed", "server.sendMessageAutoFrag"], kinds=["srv", "dg"]),
     dict(module="core", pkg="client", pkgname="client", files={"zz_verif_c03_test.go": H + "client_test.go"},
          eps=["client.udpSessionManager.feed+Receive"], kinds=["cli"]),
     dict(module="extras", pkg="sniff", pkgname="sniff", files={"zz_verif_c03_test.go": H + "sniff_test.go"}, quicbuild=True,
@@ -29,7 +30,7 @@ GO_ALL = [
               "quic.assembleCryptoFrames"]),
     dict(module="extras", pkg="obfs", pkgname="obfs", files={"zz_verif_c03_test.go": H + "obfs_test.go"},
          eps=["obfs.salamander.Deobfuscate", "obfs.obfsPacketConn.ReadFrom", "obfs.gecko.decodeFrame",
-              "obfs.geckoPacketConn.ReadFrom(frames)", "obfs.WrapPacketConnGecko.ReadFrom(stack)"]),
+              "obfs.geckoPacketConn.ReadFrom(frames)", "obfs.WrapPacketConnGecko.ReadFrom(stack)"], kinds=["gk"]),
     dict(module="extras", pkg="realm", pkgname="realm", files={"zz_verif_c03_test.go": H + "realm_test.go"},
          eps=["realm.DecodePunchPacket", "realm.PunchPacketConn.ReadFrom", "realm.parseSTUNBindingResponse", "realm.Discover"],
          kinds=["ipport", "disc"]),
@@ -52,31 +53,43 @@ RULE = ("per entry point (26 over 9 packages), generated inside the Go harness f
         "Discover) get sequences: permuted, duplicated, interleaved, junk inserted, long runs. Every slice has cap == len. Stream readers are "
         "run under 4 chunkings x 2-3 final errors (x 4 write-failure scripts for the speed-test server). "
         "Plus explicit model-comparison cases for the gaps (server/client receive histories with dial failures, expiries, replies of any "
-        "size and quic-go verdict; speed-test scripts; netIPPortToAddrPort; Discover with pion's answers as the oracle). "
+        "size and quic-go verdict; speed-test scripts; netIPPortToAddrPort; Discover with pion's answers as the oracle; Gecko receiver histories - complete / reordered / "
+        "duplicated / interleaved fragment sets, 0..2043-byte chunks, datagrams longer than the 2048-byte buffer, bad totals, index >= total, padding beyond the datagram, truncated headers, "
+        "empty datagrams, more than 8 pending ids per source - against the explicit-panic transcription, allocations checked against their caps). "
+        "End to end through the real udpIOImpl loops: 2 x hostile raw QUIC client -> real server (1500 + 500 datagram payloads from the UDP decoder's corpus, every 50-100 a valid message must be "
+        "echoed on the same connection, then a second real client must get an echo), 1 x hostile raw server -> real client (1500 payloads, the client's UDP sessions must keep receiving). "
         "Non-trivial = an input that gets past the first length check (result class other than the trivial reject) or a multi-action history.")
 ASSUMPTIONS = [
     "third-party parsers reached from these entry points (pion/stun, utls, net/http, crypto/aes, cipher.AEAD, x/crypto) do not panic themselves: oracles in the theorems, exercised (not proved) by the harness",
     "a net.PacketConn / io.Reader returns 0 <= n <= len(p) (Go's interface contract; the OS socket and quic-go honour it)",
-    "udpIOImpl.ReceiveMessage (server.go / client.go) is the parse-or-skip loop over quic.Conn.ReceiveDatagram that the harness replicates (its Conn is a concrete *quic.Conn and cannot be faked); everything behind it is the real code",
+    "udpIOImpl.ReceiveMessage / SendMessage (server.go / client.go): the in-package histories replicate the parse-or-skip loop (Conn is a concrete *quic.Conn), and the REAL loops are run end to end "
+    "(kinds dgsrv / dgcli: a raw quic-go peer sends hostile datagram payloads into a real server resp. a real client over loopback QUIC, with liveness probes on the same connection and a second real client); "
+    "the model C03_UDPRecv.v starts behind ReceiveDatagram",
     "assembleCryptoFrames is only ever called with the non-negative offsets extractCryptoFrames produces (it does panic on a hand-made negative offset; unreachable from the wire, C17_extract_frames_never_panics)",
     "out-of-memory / stack exhaustion are outside the model; allocation sizes are bounded by the cited theorems (C04 limits, 65535-byte speed-test message, 256 KiB CRYPTO caps, Gecko 8 x 4096 entries)",
 ]
 TRUSTED = ["modelled rather than verified: core/server/udp.go, core/client/udp.go receive paths (coq/model/C03_UDPRecv.v), extras/outbounds/speedtest/{protocol,server}.go "
            "(coq/model/C03_Speedtest.v), extras/realm/stun.go around pion (coq/model/C03_Stun.v); the other decoders are the models of C04/C05/C13/C14/C17/C20",
-           "Gecko receiver: C14's model has no panic site because the only index is behind the code's own guard; cited as bounded state, crash-freedom there rests on the harness"]
-LEVEL_TEXT = ("Machine-checked Coq theorems (26, all closed under the global context): for every byte string, every reader script and every "
+           "Gecko receiver: coq/model/C03_Gecko.v transcribes ReadFrom / decodeFrame / acceptChunk with every slice, index and make() as an explicit panic site and is proved to refine C14's model; "
+           "tied to the code by the gk cases (real geckoPacketConn on scripted inner datagrams vs run_p in the kernel, allocations checked against the caps); addr.String() on the inner conn's address and the inner conn's n <= len(buf) are the net.PacketConn contract",
+           "C03_alloc_bounded collects the peer-sized make() calls of the modelled decoders; fixed-size buffers (udpBufferSize, MaxUDPSize, 1500-byte STUN buffer, 64 KiB speed-test chunk) and the sender-side encoders are not in it; "
+           "the Defragger clause bounds the reassembly buffer by the bytes fed for it (255 fragments of one datagram each), not by a constant"]
+LEVEL_TEXT = ("Machine-checked Coq theorems (29, all closed under the global context): for every byte string, every reader script and every "
               "sequence of datagrams / environment actions, none of the network-facing decoders and stateful receivers of the property's file "
               "list reaches a Go panic site (slice bounds, index, make, division, nil dereference, send on / double close of a channel, uint32 "
               "wrap) - TCP frame readers and varintPut (C04), ParseUDPMessage, FragUDPMessage, Defragger on arbitrary parsed messages, the "
               "server and client datagram receive paths as folds over arbitrary datagram sequences interleaved with dial failures, expiries, "
-              "replies and closes, Salamander + obfs conn (C13), Gecko decodeFrame and receiver bounds (C14), the sniffer and QUIC Initial "
+              "replies and closes, Salamander + obfs conn (C13), Gecko decodeFrame and receiver bounds (C14) plus the Gecko receive path with all its slice / index / make sites "
+              "explicit (C03_gecko_receiver_never_panics: for every sequence of datagrams and ticks no site is reachable and the run equals C14's), the sniffer and QUIC Initial "
               "parsing / UnProtect / CRYPTO frames (C17), DecodePunchPacket and the punch demultiplexer (C20), STUN handling around pion for "
-              "every answer pion can give, the speed-test server and readers on every stream. The models are tied to /repo on every run: "
+              "every answer pion can give, the speed-test server and readers on every stream; and C03_alloc_bounded: every make() whose size a peer chooses "
+              "(TCP frame readers on any script, Defragger, QUIC connection ids / token / CRYPTO frames / assembled stream, Gecko slots / chunk copies / packet, punch window, speed-test message) "
+              "is under its cap for every input. The models are tied to /repo on every run: "
               "regenerated constants, a differential run of the real code against the models of the gaps, and the real code of all 26 entry "
               "points run under recover() on ~100k generated inputs / ~500k datagrams (quick tier).")
 LEVEL_NOTE = ("Trusted: Coq kernel + vm_compute; hand-written models (tie = sampled differential testing + regenerated Params + crash-freedom "
               "fuzzing of the real code); python/Go glue. No axioms. Not proved: third-party parsers and crypto (oracles); the two "
-              "udpIOImpl.ReceiveMessage loops are replicated in the harness; Gecko receiver crash-freedom is by construction of C14's model.")
+              "udpIOImpl.ReceiveMessage loops are not modelled (they are exercised end to end with hostile datagrams over real QUIC, and replicated in the in-package histories).")
 TECHNIQUE = "Coq proof (invariants over datagram/action sequences and reader scripts) on hand-written models + differential correspondence check in vm_compute + recover()-wrapped generated-input harness over the real code"
 DESIGN_REF = "DESIGN.md section 4 C03"
 
@@ -290,9 +303,99 @@ def gen_realm(rng, n):
     return cases
 
 
+def gk_frame(mid, idx, tot, pad, payload_len, rng, lie=None):
+    """one Gecko fragment frame: 0x80, msgID, idx<<4|tot, padLen, padding, payload (payload as a generated tail)"""
+    hd = bytes([0x80 | (rng.randrange(128) if rng.random() < 0.2 else 0), mid, ((idx & 15) << 4) | (tot & 15)]) + \
+        (pad if lie is None else lie).to_bytes(2, "big") + bytes(rng.randrange(256) for _ in range(pad))
+    return {"hex": hd.hex(), "g": [rng.randrange(256), rng.randrange(256), payload_len]}
+
+
+def gen_gk(rng, n):
+    """sequences of inner datagrams for the Gecko receiver: complete messages of 2..8 chunks (in order, reversed, shuffled,
+    duplicated, two messages interleaved, same id from two sources), chunk payloads 0..2043 bytes incl. the largest a 2048-byte
+    read buffer can hold and datagrams longer than the buffer, inconsistent totals, index >= total, totals 0/1/9..15, padding
+    lengths beyond the datagram, truncated headers, empty datagrams, short-header packets, more than 8 pending ids per source"""
+    cases = []
+    for ci in range(n):
+        pkts = []
+        nmsg = rng.choice([1, 1, 2, 3])
+        groups = []
+        for mi in range(nmsg):
+            src = rng.randrange(3)
+            mid = rng.choice([0, 1, 7, 255, rng.randrange(256)])
+            tot = rng.randrange(2, 9)
+            fr = []
+            for i in range(tot):
+                pl = rng.choice([0, 1, 2, 30, 200, rng.randrange(0, 1200), 2043 if rng.random() < 0.5 else 3000])
+                pad = rng.choice([0, 0, 1, 5, 40])
+                if pl >= 2043:
+                    pad = 0
+                f = gk_frame(mid, i, tot, pad, pl, rng)
+                f["src"] = src
+                fr.append(f)
+            k = rng.random()
+            if k < 0.3:
+                rng.shuffle(fr)
+            elif k < 0.45:
+                fr.reverse()
+            if rng.random() < 0.3:
+                fr.insert(rng.randrange(len(fr) + 1), dict(rng.choice(fr)))          # duplicate
+            if rng.random() < 0.2:
+                fr.pop(rng.randrange(len(fr)))                                        # one chunk never arrives
+            groups.append(fr)
+        order = [i for i, g in enumerate(groups) for _ in g]
+        if rng.random() < 0.6:
+            rng.shuffle(order)
+        its = [iter(g) for g in groups]
+        for i in order:
+            pkts.append(next(its[i]))
+            r = rng.random()
+            if r < 0.25:
+                j = rng.randrange(10)
+                src = rng.randrange(3)
+                if j == 0:
+                    pkts.append({"src": src, "hex": "", "g": None})                                           # empty datagram
+                elif j == 1:
+                    pkts.append({"src": src, "hex": bytes([rng.randrange(128)] + [rng.randrange(256) for _ in range(rng.randrange(40))]).hex(), "g": None})  # short header
+                elif j == 2:
+                    pkts.append({"src": src, "hex": bytes([0x80] + [rng.randrange(256) for _ in range(rng.randrange(4))]).hex(), "g": None})                 # truncated header
+                elif j == 3:
+                    f = gk_frame(rng.randrange(256), rng.randrange(16), rng.choice([0, 1, 9, 15]), 0, 3, rng); f["src"] = src; pkts.append(f)               # bad total
+                elif j == 4:
+                    t = rng.randrange(2, 9)
+                    f = gk_frame(rng.randrange(256), rng.randrange(t, 16), t, 0, 3, rng); f["src"] = src; pkts.append(f)                                     # index >= total
+                elif j == 5:
+                    f = gk_frame(rng.randrange(256), 0, 2, 0, rng.randrange(0, 20), rng, lie=rng.choice([21, 2043, 2044, 65535])); f["src"] = src; pkts.append(f)  # padding beyond the datagram
+                elif j == 6 and groups[i]:
+                    f = dict(rng.choice(groups[i]))                                                            # same id, different total
+                    b = bytearray(bytes.fromhex(f["hex"])); b[2] = (b[2] & 0xf0) | rng.choice([2, 3, 8]); f["hex"] = bytes(b).hex(); pkts.append(f)
+                elif j == 7 and groups[i]:
+                    f = dict(rng.choice(groups[i])); f["src"] = 5; pkts.append(f)                              # same id from another source
+                else:
+                    pkts.append({"src": src, "hex": bytes(rng.randrange(256) for _ in range(rng.randrange(1, 12))).hex(), "g": None})
+        cases.append({"k": "gk", "rbuf": rng.choice([2048, 2048, 1500, 4096, 100, 1, 0, 20000]), "pkts": pkts})
+    # more than geckoMaxPerSource pending message ids from one source, then the 9th completes nothing; another source is served
+    many = []
+    for mid in range(12):
+        f = gk_frame(mid, 0, 2, 0, 4, rng); f["src"] = 1; many.append(f)
+    for mid in (0, 8, 11):
+        f = gk_frame(mid, 1, 2, 0, 4, rng); f["src"] = 1; many.append(f)
+    for i in (0, 1):
+        f = gk_frame(3, i, 2, 0, 4, rng); f["src"] = 2; many.append(f)
+    cases.append({"k": "gk", "rbuf": 2048, "pkts": many})
+    # the largest reassembled packet: 8 chunks of 2043 bytes
+    cases.append({"k": "gk", "rbuf": 20000, "pkts": [dict(gk_frame(9, i, 8, 0, 2043, rng), src=0) for i in range(8)]})
+    return cases
+
+
 def gen_models(rng, tier):
     s = 1 if tier == "quick" else 8
-    return {"srv": gen_srv(rng, 110 * s), "cli": gen_cli(rng, 90 * s), "st": gen_st(rng, 80 * s), "realm": gen_realm(rng, 60 * s)}
+    # end to end through the real udpIOImpl.ReceiveMessage loops: hostile datagrams from a raw QUIC peer, liveness probes in between
+    dg = [{"k": "dgsrv", "seed": rng.randrange(1 << 62), "n": 1500 * s, "batch": 100, "logger": True},
+          {"k": "dgsrv", "seed": rng.randrange(1 << 62), "n": 500 * s, "batch": 50, "logger": False},
+          {"k": "dgcli", "seed": rng.randrange(1 << 62), "n": 1500 * s, "batch": 100, "logger": False}]
+    return {"srv": gen_srv(rng, 110 * s), "cli": gen_cli(rng, 90 * s), "st": gen_st(rng, 80 * s), "realm": gen_realm(rng, 60 * s),
+            "gk": gen_gk(rng, 60 * s), "dg": dg}
 
 
 # ------------------------------------------------------------------ Coq terms
@@ -421,8 +524,19 @@ def realm_to_coq(c, o):
     return "CDisc [x01] [%s] %s %s %s" % (";".join(items), boolc(o.get("panic")), boolc(o.get("err")), addrs)
 
 
+def gk_to_coq(c, o):
+    pk = []
+    for p in c["pkts"]:
+        g = p.get("g") or [0, 0, 0]
+        pk.append("GP %d %s %d %d %d" % (p["src"], cb(bytes.fromhex(p["hex"])), g[0], g[1], g[2]))
+    exp = ";".join("GO %d %d %d %d" % tuple(r) for r in o.get("outs", []))
+    return "CGecko %d [%s] %s [%s]" % (c["rbuf"], ";".join(pk), boolc(o.get("panic")), exp)
+
+
 def to_coq(c, o):
     k = c["k"]
+    if k == "gk":
+        return gk_to_coq(c, o)
     if k == "srv":
         return srv_to_coq(c, o)
     if k == "cli":
